@@ -1,5 +1,5 @@
 reg("C14", "non-conditional simulations follow their model; basic generators have the moments of their laws",
-    parts=[dict(harness="c14_simstat", cases=dict(quick=64, thorough=160), timeout_case=3600)],
+    parts=[dict(harness="c14_simstat", cases=dict(quick=64, thorough=128), timeout_case=3600)],
     rule="STATISTICAL NON-REFUTATION, false-alarm probability < 1e-9 per run. Cases are stratified on the case index (16 slots): "
          "5 turning bands on a 16x16 (thorough 20x20) grid [1-2 nested structures of {spherical, exponential, gaussian, cubic, "
          "matern, stable, sincard, besselj} + optional nugget, anisotropy ratio ~0.25-0.3 rotated along a grid direction "
@@ -18,13 +18,14 @@ reg("C14", "non-conditional simulations follow their model; basic generators hav
          "method_allowance (fraction of the sill, calibrated on the unchanged tree): turning bands 0.03, FFT 0.08 (range <= 0.17 grid "
          "size, square grid, isotropic), spectral 0.03, Cholesky 0, SPDE 0.08; on means 0.01/0.01/0.01/0/0.02 of the standard "
          "deviation. Covariance statistics are skipped (counted) when a mean statistic of the same case fails. Laws: N = 2e5 "
-         "(thorough 2e6) draws, raw moments 1-4 with bound z*sqrt((mu_2k-mu_k^2)/N) + 2 q^k x/(3N) (Bernstein, q = 1e-20 quantile), "
+         "(thorough 2e6) draws, raw moments 1-4 with bound z*sqrt((mu_2k-mu_k^2)/N) + 2 q^k x/(3N) (Bernstein, q = 1e-20 quantile) "
+         "+ 1e-3*sqrt(mu_2k) (generator allowance, calibrated), "
          "support, and reach of the range (an extreme quantile that a sample of the law passes with probability 1-1e-12). "
          "distinct = distinct (simulator, support, variables, structure, anisotropy, direction, sill class, ...) signatures",
     level="exploration",
     require=dict(distinct=30,
                  oracles=dict(quick={"variance": 25, "covariance": 120, "mean": 30, "moment1": 10, "support": 10},
-                              thorough={"variance": 60, "covariance": 300, "mean": 80, "moment1": 25, "support": 25})),
+                              thorough={"variance": 45, "covariance": 220, "mean": 60, "moment1": 20, "support": 20})),
     assumptions=["Model::eval (pointwise covariance, including anisotropy and sill matrices) is the reference for the expected "
                  "statistics: C14 compares simulations with the model's own covariance function (C01/C03 cover that function)",
                  "fourth moments of the simulated fields are those of a Gaussian field (the turning-bands / spectral fields are sums of "
